@@ -7,6 +7,7 @@ HDR = "dict[str,str]"
 
 def register(db):
     collab.declare(db)
+    register_wsdl_parts(db)
     P = ["C17"]
     assume_method(db, "Transport", "post", returns="u:Bytes", pure=True, raises=["ConnectionError"] if False else [])
     assume_method(db, "XmlParserObj", "from_bytes", returns="u:Any", pure=True, raises=["ParserError"])
@@ -90,4 +91,42 @@ def register(db):
         raises={},
         properties=P,
         note="getattr(obj, name, None) on the generated service class: the class attribute (None when absent)",
+    ))
+
+
+def register_wsdl_parts(db):
+    """DefinitionsMapper.map_binding_message_parts: which parts of the WSDL message end up in the envelope's header /
+    body class - the parts the binding names with `part="..."`, compared by *equality* of the part name; all parts
+    when the binding names none."""
+    DM = "xsdata.codegen.mappers.definitions:DefinitionsMapper"
+    assume_method(db, "Definitions", "find_message", returns="u:Message", pure=True, raises=["CodegenError"])
+    collab.field(db, "Message", "parts", "seq[u:Part]")
+    collab.field(db, "Part", "name", "str")
+    db.add(Contract(f"{DM}.build_parts_attributes", variant="call-view", trusted=True, call_default=True, params={},
+                    returns="seq[u:Attr]", raises={"CodegenError": True},
+                    note="call-site view: one attr per part handed in (recorded on the ghost trace)"))
+
+    def extended(mk, base):
+        return mk.obj("xsdata.formats.dataclass.models.generics:AnyElement", {"attributes": "dict[str,str]"})
+
+    def the_class(mk, base):
+        from pyvc.values import ClassRef
+        return ClassRef("xsdata.codegen.mappers.definitions", "DefinitionsMapper")
+
+    MSG_OK = "implies('message' in extended.attributes, len(extended.attributes['message']) > 0)"
+
+    db.add(Contract(
+        f"{DM}.map_binding_message_parts", variant="one-part-selected",
+        params={"cls": the_class, "definitions": "opaque:Definitions", "message": "str", "extended": extended, "ns_map": "opaque:PyDict"},
+        requires=["'part' in extended.attributes", "len(message) > 0", MSG_OK],
+        ensures=[("a-part-is-selected-iff-its-name-is-the-named-part",
+                  "comp_filter_count() == 1 and comp_filter_condition() == (comp_filter_element().name == extended.attributes['part'])")],
+        raises={"CodegenError": True}, properties=["C17"],
+    ))
+    db.add(Contract(
+        f"{DM}.map_binding_message_parts", variant="no-part-selected",
+        params={"cls": the_class, "definitions": "opaque:Definitions", "message": "str", "extended": extended, "ns_map": "opaque:PyDict"},
+        requires=["not ('part' in extended.attributes)", "not ('parts' in extended.attributes)", "len(message) > 0", MSG_OK],
+        ensures=[("all-parts-of-the-message-unfiltered", "comp_filter_count() == 0 and called('DefinitionsMapper.build_parts_attributes') == 1")],
+        raises={"CodegenError": True}, properties=["C17"],
     ))
